@@ -147,7 +147,7 @@ def main(argv=None):
     from pyvc import engine
     mods = load_contracts(prop)
     hs = engine.HARNESSES.get(prop, [])
-    if not hs:
+    if not hs and not any(getattr(m, 'BOUNDED', None) for m in mods):
         print('CHECKER-ERROR property=%s no harnesses registered' % prop)
         return 3
     idxs = [i for i, h in enumerate(hs) if not a.only or a.only in h.name]
